@@ -96,6 +96,9 @@ let run (hist : string) (impl : string) =
          let km = ref (kmon_init, kmon_init) in
          let calls = Hashtbl.create 16 in      (* API calls of this history: identifier -> kind *)
          let excluded = ref false in
+         (* C17 clause 5: Publish (QoS 1/2) calls to which the implementation returned an error in a step in which the
+            model's exchange simply went on *)
+         let early = ref [] in
          let ievs = Array.of_list ievs in
          List.iteri (fun k (text, ev) ->
              incr nev;
@@ -136,6 +139,25 @@ let run (hist : string) (impl : string) =
                     (if List.mem (p, c) kfm then " model=fails" else " model=holds"))) kfi in
              List.iter (fun (p, c) ->
                  fail p c k (Printf.sprintf "event=%s impl=[%s]" text (String.concat "; " (List.map show iouts)))) (fails @ kfails);
+             (* C17 "returns nil exactly when the gateway acknowledged within the retry budget", the direction chk_C17
+                does not state: the implementation gave a Publish (QoS 1/2) call up with an error while the model's
+                exchange went on, and the acknowledgement then arrived within the budget (the model returns nil).  The
+                expectation is the model's own behaviour: the clause cannot fail on the model *)
+             let pending_publish id = List.exists (fun (_, o) -> match o with
+                 | CxRetry (call, kind, _, _, _, _, _) -> int_of_n call = id && (int_of_n kind = 3 || int_of_n kind = 4)
+                 | _ -> false) (nmap_to_list !s.cl_objs) in
+             let mrets = List.concat_map (fun o -> match o with CoRet (_, id, r) -> [(int_of_n id, r)] | _ -> []) outs in
+             List.iter (fun (o : co) ->
+                 match split_on ' ' o.text with
+                 | ["RET"; id; r] when r <> "ok" ->
+                   let id = int_of_string id in
+                   if pending_publish id && not (List.mem_assoc id mrets) then early := id :: !early
+                 | _ -> ()) iouts;
+             List.iter (fun (id, r) ->
+                 if r = ROk && List.mem id !early then begin
+                   early := List.filter (fun j -> j <> id) !early;
+                   fail "C17" "clause5 class=gave-up-before-the-acknowledgement model=holds" k
+                     (Printf.sprintf "event=%s call=%d: the gateway's acknowledgement arrived within the budget (the model returns nil here); the implementation had returned an error earlier" text id) end) mrets;
              let rec cmp ms is =
                match ms, is with
                | [], [] -> ()
